@@ -276,7 +276,15 @@ class Interp(Exec):
         return type(cm).__name__
 
     def st_FunctionDef(self, s):
-        # nested def: bound as closure over the current env (read-only capture)
+        # nested def: bound as closure over the current env (read-only capture) -- or, when the nested function has its own contract,
+        # as that function (calls then go through the contract, the captured variables are taken from the current environment)
+        fi = self.frame.fi if self.frame else None
+        if fi is not None:
+            q = fi.fid.split(":")[1]
+            nested = "%s:%s.<locals>.%s" % (fi.module, q, s.name)
+            if nested in self.reg.contracts and self.src.has_func(nested):
+                self.st.env[s.name] = VFunc(nested)
+                return
         self.st.env[s.name] = VLambda(s, self.st.env)
 
     def st_Import(self, s):
@@ -367,6 +375,8 @@ class Interp(Exec):
         if self.branch(cond):
             if lst is not None:
                 elem = self.from_term(lst.arr[i], lst.ty.e)
+                if isinstance(lst.ty.e, TObj):
+                    self.touch(TObj(), z3.simplify(lst.arr[i]))    # the current element is worth instantiating universals at
                 if getattr(self, "enumerating", False) and isinstance(target, ast.Tuple):
                     self.enumerating = False
                     self.assign(target, VTuple([VInt(i), elem]))
@@ -447,6 +457,14 @@ class Interp(Exec):
                 return isinstance(self.st.env[node.id], (VCont, VStr, VTuple, VInt, VBool))
             return False
         eff = self.effects.of_nodes([s], (fi.module, fi.cls), recv_builtin)
+        fc = self.frame_contract()
+        if fc is not None and fc.labels.get("loop_havoc_heap"):
+            # heap attributes written by assumed models (hooks) inside loops: invisible to the syntactic effect analysis, listed by the contract
+            eff = dict(eff, fields=set(eff["fields"]) | set(fc.labels["loop_havoc_heap"]))
+        if fc is not None and fc.labels.get("loop_keep"):
+            # fields / ghosts the by-name effect analysis would havoc although the loop body cannot reach them (stated by the contract and
+            # checked by the frame obligations of the callees involved)
+            eff = dict(eff, fields=set(eff["fields"]) - set(fc.labels["loop_keep"]), ghosts=set(eff["ghosts"]) - set(fc.labels["loop_keep"]))
         for name in eff["locals"]:
             if name in self.st.env:
                 self.st.env[name] = self.havoc_value(self.st.env[name], name)
@@ -626,10 +644,16 @@ class Interp(Exec):
             v = self.resolve_module_name(fi.module, name)
             if v is not None:
                 return v
+        if fi is not None and fi.node.name == name:
+            return VFunc(fi.fid)      # a (nested) function referring to itself
         if name in BUILTIN_EXC:
             return VClass(name)
         if hasattr(builtins, name):
             return VBuiltin(name)
+        if self.spec_mode and not getattr(self, "pure_code", 0) and getattr(self, "drift", False) is False and name.islower() and fi is not None \
+                and any(isinstance(x, ast.Name) and x.id == name and isinstance(x.ctx, ast.Store) for x in ast.walk(fi.node)):
+            # a local of the function that is not assigned on this path: specifications are total, its value here is arbitrary
+            return VObj(self.fresh("unassigned_" + name, ObjSort))
         raise Unsupported("unresolved name %s" % name)
 
     def resolve_module_name(self, mod, name):
